@@ -69,6 +69,7 @@ type Contract struct {
 	SplitTxt []string
 	Safety   []string // properties under which safe.*/nofatal/nopanic obligations are generated (default: all)
 	GhostDo  []*GhostAssign
+	GhostRet []*GhostAssign // ghost statements executed at exit (results in scope)
 	AtCalls  []*AtCall
 }
 
@@ -129,7 +130,7 @@ var clauseKeywords = map[string]bool{
 	"func": true, "extern": true, "pure": true, "ghost": true, "props": true, "requires": true, "ensures": true,
 	"modifies": true, "loop": true, "invariant": true, "decreases": true, "nofatal": true, "overflow": true,
 	"let": true, "trusted": true, "returns": true, "fatal": true, "assume": true, "callback": true,
-	"lemma": true, "sentinel": true, "iface": true, "share": true, "effectfree": true, "opaque": true, "end": true, "ghostdo": true, "atcall": true, "split": true, "safety": true,
+	"lemma": true, "sentinel": true, "iface": true, "share": true, "effectfree": true, "opaque": true, "end": true, "ghostdo": true, "ghostret": true, "atcall": true, "split": true, "safety": true,
 }
 
 var labelRe = regexp.MustCompile(`^(requires|ensures|invariant|assume)\[([^\]]*)\]\s*(.*)$`)
@@ -457,7 +458,7 @@ func (cs *Contracts) parseFile(p *Program, pkgPath, file, src string) error {
 				return fail(rc, "safety outside func")
 			}
 			cur.Safety = append(cur.Safety, strings.Fields(rc.text)...)
-		case "ghostdo":
+		case "ghostdo", "ghostret":
 			if cur == nil {
 				return fail(rc, "ghostdo outside func")
 			}
@@ -482,7 +483,11 @@ func (cs *Contracts) parseFile(p *Program, pkgPath, file, src string) error {
 				return fail(rc, "%v", err)
 			}
 			ga.Val = v
-			cur.GhostDo = append(cur.GhostDo, ga)
+			if rc.kw == "ghostret" {
+				cur.GhostRet = append(cur.GhostRet, ga)
+			} else {
+				cur.GhostDo = append(cur.GhostDo, ga)
+			}
 		case "atcall":
 			if cur == nil {
 				return fail(rc, "atcall outside func")
